@@ -183,11 +183,14 @@ impl Recv {
                 "lower than high water mark",
             ));
         }
-        self.credit_consumed_by(final_offset.into(), received, max_data)?;
-
         if matches!(self.state, RecvState::ResetRecvd { .. }) {
+            // Redundant reset with a consistent final size. Its flow control credit was accounted
+            // for when the first one was processed; charging it again could spuriously exceed the
+            // connection limit.
             return Ok(false);
         }
+        self.credit_consumed_by(final_offset.into(), received, max_data)?;
+
         self.state = RecvState::ResetRecvd {
             size: final_offset.into(),
             error_code,
